@@ -130,7 +130,18 @@ def _flaky_case(case, ctx):
     run = seq.Run(dict(case, ops=[]), ctx)
     data = run.contents[0]
     stream = _flaky_stream(data, case["fail_at"], case["errno"])
+    before = common.alpha(run.root, run.cfg)
     out = common.call(run.store.store_object, TARGET, stream)
+    if case.get("judge_residue") and not is_ok(out):
+        # (C05) a call that failed because the CALLER's stream broke is a completed, rejected call: the store is as before
+        # and no temporary file is left behind
+        after = common.alpha(run.root, run.cfg)
+        if after["residue"]:
+            ctx.violation("bookkeeping-residue", f"store_object(stream whose read fails once with {case['errno']} at offset "
+                          f"{case['fail_at']}) raised {out[1]} and left {after['residue'][:3]} behind", {"aspect": "residue", "op": "store"})
+        if common.alpha_key(after) != common.alpha_key(before):
+            ctx.violation("bookkeeping-refs", f"store_object(stream whose read fails once) raised {out[1]} and changed the store",
+                          {"aspect": "state", "op": "store"})
     what = f"store_object(stream whose read fails once with {case['errno']} at offset {case['fail_at']}, {len(data)} bytes)"
     if is_ok(out):
         om = out[1]
